@@ -947,29 +947,40 @@ def final_fresh(case, ctx, run, root):
 # ================================================================================================
 # sub-checks
 
-RULE = ("history = synthetic data set on disk (2-6 systems, 6-90 points, 2.5% with >10000 points = two integration blocks; "
-        "nspin 1/2 mixed; points below the 1e-6 masking density incl. zero/negative densities; 4 semilocal modes; 0-5 nonlocal "
-        "feature rows in separate NLDF/SDMX files with drawn normalisers) x 1-3 kernels (components x/c/xc, modes "
-        "SEP/NPOL/POL, 1-3 feature maps of 9 classes, sums/powers of constant*RBF kernels, native baselines) x control points "
-        "with/without pivoted-Cholesky reduction x drawn operation list. Oracle: independent numpy model of covariance "
-        "vectors, baselines, occupation-derivative vectors (complex step), reaction rows/labels/noises; alpha vs "
-        "Kmm^-1 Kmn (sum_k Knm Kmm^-1 Kmn + Sigma + eps)^-1 y with eps=1e-9 in both solves. Tolerances: 1e-8 relative in "
-        "prediction space plus a first-order rounding bound 100*u*(sum_k cond(Kmm_k)|Kmn_k||A_k| + n|K|)|beta| "
-        "(two different backward-stable solvers cannot agree better); alpha space 1e-8*cond(Kmm+eps). Non-trivial: last "
-        "fit has >=3 reactions, >=1 multi-system reaction with mixed-sign counts, reaction covariance not diagonal "
-        "(normalised off-diagonal > 1e-3); distinct by data seed + structure (modes, components, baselines, feature-map classes, operation list, nspin pattern, per-reaction mode/entry kinds/counts/options).")
-TOL = {"prediction_space_rtol": 1e-8, "alpha_rtol": "1e-8*cond(Kmm+eps)", "cov_rtol": 1e-10, "dcov_rtol": 1e-9,
-       "likelihood_rtol": 1e-8, "metamorphic_rtol": "1e-9*max(1,1e-3*cond)", "map_integral_rtol": 1e-9}
+RULE = ("history = synthetic data set on disk (2-6 systems, 6-90 points, 2.5% of systems with >10000 points = two integration "
+        "blocks; nspin 1/2 mixed; points below the 1e-6 masking density incl. zero/negative densities with large weights; 4 "
+        "semilocal modes; 0-5 nonlocal feature rows in separate NLDF/SDMX files with drawn normalisers) x 1-3 kernels "
+        "(components x/c/xc, modes SEP/NPOL/POL, 1-3 feature maps of 9 classes, sums/powers of constant*RBF kernels, native "
+        "baselines) x control points with pivoted-Cholesky reduction or an unreduced set built so that cond(Kmm+eps)<=1e6 x "
+        "drawn operation list (store_mol_covs(subset, get_orb_deriv None/True/False/per-kernel list, get_correlation), "
+        "add_reactions, reset_reactions, fit(), fit(x,sigma_min), compute_likelihood, permute-and-re-add, reset-and-re-add, "
+        "fit without reactions) + final stages (fresh model with reversed kernel/system/reaction order; noise ladder "
+        "1..1e-3; mapped model integral). Oracle: independent numpy model of covariance vectors, baselines, "
+        "occupation-derivative vectors (complex step), reaction rows/labels/noises from counts, units and options; then "
+        "alpha vs Kmm^-1 Kmn (sum_k Knm Kmm^-1 Kmn + Sigma + eps)^-1 y with eps=1e-9 in both solves. Tolerances: backward "
+        "error of both linear systems 1e-9 (no condition number); prediction space and residual law 1e-8 relative plus a "
+        "rounding floor = 100 x spread between an LU and a Cholesky solution of the model + 300*u*n*|K|*|beta|_1 (the "
+        "forward error two backward-stable solvers may legitimately differ by; histogram `prediction_tolerance`); alpha "
+        "space 1e-8*cond(Kmm+eps) when cond<=1e8. Non-trivial: last fit has >=3 reactions, >=1 multi-system reaction with "
+        "mixed-sign counts, reaction covariance not diagonal (normalised off-diagonal > 1e-3); distinct by data seed + "
+        "structure (modes, components, baselines, feature-map classes, operation list, nspin pattern, per-reaction "
+        "mode/entry kinds/counts/options). Excluded by construction (own reproducer sub-checks defect_*): derivative data "
+        "with POL kernels, mode-0 reactions with a POL c/xc kernel, (system, orbital) entries in mode-2 reactions, "
+        "get_correlation=False with a non-exchange first kernel, MOLGP2 with derivative data.")
+TOL = {"backward_error_rtol": 1e-9, "prediction_space_rtol": "1e-8 + rounding floor (see rule)",
+       "alpha_rtol": "1e-8*cond(Kmm+eps)", "cov_rtol": 1e-10, "base_rtol": 1e-11, "dcov_rtol": 1e-9,
+       "likelihood_rtol": "1e-8 of |quad|+|logdet|+n + rounding floor", "metamorphic_rtol": "1e-9*max(1,1e-3*cond)",
+       "map_integral_rtol": 1e-9}
 
 
-@subcheck("C16", "history", lambda: st_history(gp2=False), quick=320, thorough=6000, rule=RULE, tolerances=TOL,
+@subcheck("C16", "history", lambda: st_history(gp2=False), quick=800, thorough=30000, rule=RULE, tolerances=TOL,
           assumptions=["training files follow the layout read by MOLGP.load_data (no real data set exists in the sandbox)",
                        "get_orb_deriv=None is used only with lists that are homogeneous in derivative data"])
 def history(case, ctx):
     run_history(case, ctx, "h")
 
 
-@subcheck("C16", "history_gp2", lambda: st_history(gp2=True), quick=120, thorough=2000,
+@subcheck("C16", "history_gp2", lambda: st_history(gp2=True), quick=240, thorough=8000,
           rule="same histories for MOLGP2/DFTKernel2 (libxc baselines LDA_X, GGA_X_PBE, MGGA_X_R2SCAN, and GGA_C_PBE / "
                "LDA_C_PW_MOD for NPOL/POL) without occupation derivatives; baseline oracle = PySCF's own libxc interface "
                "with the documented spin scaling for SEP; otherwise as `history`",
